@@ -136,13 +136,20 @@ Record opage := { op_data : list Z; op_has_more : bool; op_prev : option oquery;
 
 Definition max_int32 : Z := 2147483647.
 
+(* OFFSET o (recursion on the rows, so that large offsets stay cheap when the model is executed) *)
+Fixpoint skipz (o : Z) (l : list Z) : list Z :=
+  match l with
+  | [] => []
+  | _ :: r => if 0 <? o then skipz (o - 1) r else l
+  end.
+
 (* Paginate: ORDER BY col order [OFFSET offset] [LIMIT pageSize+1]; None = "offset value exceeds
    maximum allowed value" *)
 Definition ofetch (ks : list Z) (q : oquery) : option (list Z) :=
   if o_offset q >? max_int32 then None
   else
     let s := sort_keys (o_asc q) ks in
-    let s := if 0 <? o_offset q then skipn (Z.to_nat (o_offset q)) s else s in
+    let s := if 0 <? o_offset q then skipz (o_offset q) s else s in
     Some (if Nat.ltb 0 (o_size q) then firstn (S (o_size q)) s else s).
 
 Definition with_offset (q : oquery) (o : Z) : oquery :=
